@@ -499,13 +499,17 @@ def months_inc(start_date, months, eomonth=False):
     months = coerce_to_number(months, convert_all=True)
     if isinstance(start_date, str) or isinstance(months, str):
         return VALUE_ERROR
-    if start_date < 0:
+    if start_date < 0 or DATE_MAX_INT <= start_date:
         return NUM_ERROR
     y, m, d = date_from_int(start_date)
+    # carry the shifted month into the year
+    y += (m + months - 1) // 12
+    m = (m + months - 1) % 12 + 1
+    if not (DATE_ZERO.year < y <= DATE_MAX.year):
+        return NUM_ERROR
     if eomonth:
-        return date(y, m + months + 1, 1) - 1
-    else:
-        return date(y, m + months, d)
+        d = max_days_in_month(m, y)
+    return date(y, m, d)
 
 
 @time_value_wrapper
